@@ -24,7 +24,7 @@ RULE = ("interpolation: label vectors over {0,1,2,3} (isolated, clusters of adja
 ASSUMPTIONS = ["a bad channel's admissible neighbours = non-bad channels whose distance-decay weight exp(-(d/20um)^1.3) is >= 0.005 (d <= 72.1 um)",
                "detection is judged on generated backgrounds only; the feature margins measured on the run are written to the evidence",
                "mode over batches is asserted only without ties (7/3 splits)"]
-REQUIRED = {"interp_cases": 40, "nonfinite_bad_rows": 20, "bad_rows_checked": 100, "untouched_rows_checked": 40, "detection_cases": 20, "file_mode_cases": 2, "spied_batches": 20}
+REQUIRED = {"interp_cases": 40, "nonfinite_bad_rows": 20, "bad_rows_checked": 100, "untouched_rows_checked": 40, "detection_cases": 20, "file_mode_cases": 2, "spied_batches": 20, "plurality_channels": 1}
 CASE_TIMEOUT = 200.0
 KINDS = ["3B2", "NP2.1", "NP2.4", "NPultra"]
 
@@ -241,10 +241,15 @@ def run_case(case):
         s2v = rec.s2v[:n]
         raw = np.zeros((ns, n + 1), np.int16)
         starts = [int(t0 * fs) for t0 in np.linspace(0, ns / fs - bdur, nb)]
-        often, seldom = int(rng.integers(10, 40)), int(rng.integers(50, 86))      # channel faulty in 7 of 10 batches / in 3 of 10 batches
+        often, seldom = int(rng.integers(8, 28)), int(rng.integers(62, 88))      # channel faulty in 7 of 10 batches / in 3 of 10 batches
         kind_often, kind_seldom = str(rng.choice(["dead", "noisy"])), str(rng.choice(["dead", "noisy"]))
         in7 = set(rng.choice(nb, 7, replace=False).tolist())
         in3 = set(rng.choice(nb, 3, replace=False).tolist())
+        # a channel whose state changes over the file between three values: its most frequent label is a plurality, not a majority
+        mixed = int(rng.integers(38, 52))
+        plur, other = ("dead", "noisy") if rng.random() < 0.5 else ("noisy", "dead")
+        perm = rng.permutation(nb).tolist()
+        mixed_state = {bb: ([plur] * 4 + [other] * 3 + ["clean"] * 3)[j] for j, bb in enumerate(perm)}
         # gaps between batches hold plain background
         pos = 0
         seg_bounds = []
@@ -254,7 +259,7 @@ def run_case(case):
         raw[:, :n] = np.clip(np.round(filler.T / s2v[None, :]), -32768, 32767).astype(np.int16)
         for b, (s0, s1) in enumerate(seg_bounds):
             seg = background(rng, n, s1 - s0, fs)
-            for ch, kd, present in ((often, kind_often, b in in7), (seldom, kind_seldom, b in in3)):
+            for ch, kd, present in ((often, kind_often, b in in7), (seldom, kind_seldom, b in in3), (mixed, mixed_state[b], mixed_state[b] != "clean")):
                 if present:
                     if kd == "dead":
                         seg[ch] = rng.standard_normal(s1 - s0) * 1e-7
@@ -296,6 +301,11 @@ def run_case(case):
                 want = 1 if kind_often == "dead" else 2
                 res.check(flags[often] == want, "file:majority-fault-not-flagged", f"{label}: channel {often} got label {flags[often]}, batch labels {per[:, often].tolist()}")
                 res.check(flags[seldom] == 0, "file:minority-fault-flagged", f"{label}: channel {seldom} got label {flags[seldom]}, batch labels {per[:, seldom].tolist()}")
+                wantm = 1 if plur == "dead" else 2
+                cntm = np.bincount(per[:, mixed].astype(int), minlength=4)
+                if cntm[wantm] > max(cntm[k] for k in range(4) if k != wantm):      # judged only when the detector itself saw the plurality
+                    res.check(flags[mixed] == wantm, "file:plurality-label-not-returned", f"{label}: channel {mixed} ({plur} in 4, {other} in 3, clean in 3 batches) got label "
+                              f"{flags[mixed]}, batch labels {per[:, mixed].tolist()}", counter="plurality_channels")
                 # the slices handed to the detector are the evenly spaced batches of the file
                 srx = spikeglx.Reader(b, sort=False)
                 for k, c in enumerate(spy.calls[:nb]):
